@@ -495,6 +495,12 @@ func (g *vGen) step(kind string) vGenStep {
 			return vGenStep{Signer: p, Msgs: []sdk.Msg{&mtypes.MsgCloseBid{BidID: bid}}, Kind: kind}
 		}
 		b := bs[r.Intn(len(bs))]
+		if r.Chance(1, 6) {
+			// a lost bid, if there is one
+			if ls := v.bids(func(b mtypes.Bid) bool { return b.State == mtypes.BidLost }); len(ls) > 0 {
+				b = ls[r.Intn(len(ls))]
+			}
+		}
 		return vGenStep{Signer: g.actorOf(b.BidID.Provider), Msgs: []sdk.Msg{&mtypes.MsgCloseBid{BidID: b.BidID}}, Kind: kind}
 	case "create-lease":
 		bs := v.bids(func(b mtypes.Bid) bool { return b.State == mtypes.BidOpen })
@@ -579,7 +585,20 @@ func (g *vGen) step(kind string) vGenStep {
 		if r.Chance(1, 10) {
 			cn = g.otherThan(o).Bech
 		}
-		crt, pub, err := vMakeCert(cn, serial, vECKey(g.certSeq), g.h.c.now.Add(-time.Hour), g.h.c.now.Add(24*time.Hour))
+		// validity windows of four shapes, fixed dates (never the wall clock):
+		// around chain time only / from chain time to 2100 / 2015-2100 /
+		// 2050-2100 (C07's skewed-clock process needs windows that contain one
+		// wall-clock date and not the other)
+		nb, na := g.h.c.now.Add(-time.Hour), g.h.c.now.Add(24*time.Hour)
+		switch g.certSeq % 4 {
+		case 1:
+			na = time.Date(2100, 1, 1, 0, 0, 0, 0, time.UTC)
+		case 2:
+			nb, na = time.Date(2015, 1, 1, 0, 0, 0, 0, time.UTC), time.Date(2100, 1, 1, 0, 0, 0, 0, time.UTC)
+		case 3:
+			nb, na = time.Date(2050, 1, 1, 0, 0, 0, 0, time.UTC), time.Date(2100, 1, 1, 0, 0, 0, 0, time.UTC)
+		}
+		crt, pub, err := vMakeCert(cn, serial, vECKey(g.certSeq), nb, na)
 		if err != nil {
 			return g.step("bank-send")
 		}
@@ -755,6 +774,52 @@ func vRateFor(deposit int64, blocks int) int64 {
 
 func vScenarios() []vScenario {
 	return []vScenario{
+		// actions that name an object in a terminal state (lost / closed) next
+		// to live objects of other parties: every one must be refused or stay
+		// inside what it names
+		{"stale-object-ops", func(g *vGen) {
+			t := g.h.actor("tenant", g.r.Intn(3))
+			pa := g.h.actor("provider", g.r.Intn(3))
+			pb := g.h.actor("provider", (pa.Idx+1+g.r.Intn(2))%3)
+			price := g.unitPrice()
+			id, ok := g.tplDeploy(1, t, g.minDep()*2, []vUnitSpec{{price, 1}})
+			if !ok {
+				return
+			}
+			oid := vOrderID(id, 1, 1)
+			bidA, _ := g.tplBid(g.r.Intn(2), pa, oid, price)
+			bidB, _ := g.tplBid(g.r.Intn(2), pb, oid, price)
+			win, lose, pw, pl := bidA, bidB, pa, pb
+			if g.r.Bool() {
+				win, lose, pw, pl = bidB, bidA, pb, pa
+			}
+			g.h.DoNote("tpl/create-lease", g.r.Intn(2), t, &mtypes.MsgCreateLease{BidID: win})
+			ops := []func(){
+				func() { g.h.DoNote("tpl/close-lost-bid", g.r.Intn(3), pl, &mtypes.MsgCloseBid{BidID: lose}) },
+				func() {
+					g.h.DoNote("tpl/withdraw-on-lost-bid", g.r.Intn(3), pl, &mtypes.MsgWithdrawLease{LeaseID: lose.LeaseID()})
+				},
+				func() {
+					g.h.DoNote("tpl/close-lease-of-lost-bid", g.r.Intn(3), t, &mtypes.MsgCloseLease{LeaseID: lose.LeaseID()})
+				},
+				func() {
+					g.h.DoNote("tpl/create-lease-on-lost-bid", g.r.Intn(3), t, &mtypes.MsgCreateLease{BidID: lose})
+				},
+				func() {
+					g.h.DoNote("tpl/bid-again-after-loss", g.r.Intn(3), pl, &mtypes.MsgCreateBid{Order: oid, Provider: pl.Bech, Price: vCoin(price), Deposit: vCoin(g.h.c.profile.BidMinDeposit)})
+				},
+			}
+			for _, i := range g.r.Perm(len(ops)) {
+				ops[i]()
+			}
+			// the winner's lease is still there and still earns
+			g.h.DoNote("tpl/withdraw-winner", g.r.Range(1, 4), pw, &mtypes.MsgWithdrawLease{LeaseID: win.LeaseID()})
+			g.h.DoNote("tpl/close-winner-lease", g.r.Intn(3), t, &mtypes.MsgCloseLease{LeaseID: win.LeaseID()})
+			// the same actions once everything under the order is closed
+			g.h.DoNote("tpl/close-closed-bid", g.r.Intn(2), pw, &mtypes.MsgCloseBid{BidID: win})
+			g.h.DoNote("tpl/close-lost-bid-late", g.r.Intn(2), pl, &mtypes.MsgCloseBid{BidID: lose})
+			g.h.DoNote("tpl/close-deployment", g.r.Intn(3), t, &dtypes.MsgCloseDeployment{ID: id})
+		}},
 		{"lease-then-close-lease-same-block", func(g *vGen) {
 			t, p := g.h.actor("tenant", g.r.Intn(3)), g.h.actor("provider", g.r.Intn(3))
 			price := g.unitPrice()
@@ -1034,7 +1099,7 @@ func vScenarios() []vScenario {
 				groups = []dtypes.GroupSpec{vGroupSpec("g1", req, vUnitSpec{price, 1}), vGroupSpec("g2", types.PlacementRequirements{}, vUnitSpec{price, 1})}
 			}
 			o := g.h.DoNote("tpl/create-deployment-attrs", 1, t, &dtypes.MsgCreateDeployment{ID: id,
-				Groups: groups,
+				Groups:  groups,
 				Version: vVersion(g.r), Deposit: vCoin(g.minDep() * 2)})
 			if !o.OK {
 				return
